@@ -57,6 +57,8 @@ class Schema:
                 rhs = "ENUMERATION OF (" + ", ".join(b[1]) + ")"
             elif b[0] == "select":
                 rhs = "SELECT (" + ", ".join(b[1]) + ")"
+            elif b[0] in ("renum", "rselect"):
+                rhs = b[1]                       # TYPE t = <enumeration or select type>: a rename
             else:
                 _, k, lo, hi, base = b
                 rhs = f"{k} [{lo}:{'?' if hi is None else hi}] OF {base}"
@@ -89,6 +91,14 @@ class Schema:
             b = t.body
             if b[0] in ("enum", "select"):
                 out.append(f"type {t.name} {b[0]} " + " ".join(b[1]))
+            elif b[0] in ("renum", "rselect"):
+                # observable content of a rename = the content of the type it (transitively) renames
+                by = {x.name: x for x in self.types}
+                r = t
+                while r.body[0] in ("renum", "rselect") and r.body[1] in by:
+                    r = by[r.body[1]]
+                content = r.body[1] if r.body[0] in ("enum", "select") else b[2]
+                out.append(f"type {t.name} {'enum' if b[0] == 'renum' else 'select'} " + " ".join(content))
             elif b[0] == "aggregate":
                 out.append(f"type {t.name} aggregate {b[1]} {b[2]} {'?' if b[3] is None else b[3]} {b[4]}")
             elif b[0] == "boolean":
@@ -169,6 +179,9 @@ def gen(rng, idx=0, n_ent=None, n_types=None, p_kw=0.15, p_multi=0.3, allow_kw=P
             s.types.append(TypeDef(n, ("boolean",)))
         elif r < 0.55 and plain:
             s.types.append(TypeDef(n, ("defined", rng.choice(plain)))); plain.append(n)
+        elif r < 0.62 and any(t.body[0] in ("enum", "renum") for t in s.types):
+            src = rng.choice([t for t in s.types if t.body[0] in ("enum", "renum")])
+            s.types.append(TypeDef(n, ("renum", src.name, list(src.body[1] if src.body[0] == "enum" else src.body[2]))))
         elif r < 0.8:
             s.types.append(TypeDef(n, ("enum", [fresh("i") for _ in range(rng.randrange(1, 4))])))
         else:
@@ -221,6 +234,73 @@ def gen(rng, idx=0, n_ent=None, n_types=None, p_kw=0.15, p_multi=0.3, allow_kw=P
     if s.entities and rng.random() < 0.4:
         members = rng.sample([x.name for x in s.entities] + plain, min(len(s.entities) + len(plain), rng.randrange(1, 4)))
         s.types.append(TypeDef(fresh("t"), ("select", members)))
+        if rng.random() < 0.4:
+            s.types.append(TypeDef(fresh("t"), ("rselect", s.types[-1].name, list(members))))
+    return s
+
+
+def _names(rng, n, prefix="n"):
+    """n distinct identifiers of varying length/shape: the symbol table iterates in hash order, so the same structure is
+    visited in many different orders"""
+    out = set()
+    while len(out) < n:
+        out.add(rng.choice(["", "x", "zz", "abc"]) + prefix + str(rng.randrange(10000)) + rng.choice(["", "_a", "_bb"]))
+    out = list(out); rng.shuffle(out)
+    return out
+
+
+def gen_renamed_in_select(rng, idx):
+    """renamed enumerations / selects used as attribute types of entities that are members of a select"""
+    s = Schema(f"r{idx}")
+    nm = _names(rng, 16)
+    e0, r1, r2, r3, p, q, b, c1, c2, c3, asm, a1, a2, a3, a4, a5 = nm
+    s.types.append(TypeDef(e0, ("enum", ["raw", "primed", "coated"][:rng.randrange(1, 4)])))
+    items = list(s.types[0].body[1])
+    s.types.append(TypeDef(r1, ("renum", e0, items)))
+    s.types.append(TypeDef(r2, ("renum", rng.choice([e0, r1]), items)))
+    ep, eq, eb = Entity(p, []), Entity(q, []), Entity(b, [])
+    ep.attrs = [Attr(a1, "e", "STRING"), Attr(a2, rng.choice("eo"), r1)]
+    eq.attrs = [Attr(a3, "e", rng.choice([r2, r1, e0]))]
+    eb.attrs = [Attr(a4, "e", "REAL")]
+    s.entities += [ep, eq, eb]
+    s.types.append(TypeDef(c1, ("select", [p, b])))
+    s.types.append(TypeDef(c2, ("select", [q, b] if rng.random() < 0.7 else [q, c1])))
+    if rng.random() < 0.5:
+        s.types.append(TypeDef(c3, ("rselect", c1, [p, b])))
+    ea = Entity(asm, [])
+    ea.attrs = [Attr(a5, "e", f"LIST [1:?] OF {c1}"), Attr(r3, "o", c2)]
+    s.entities.append(ea)
+    rng.shuffle(s.types)
+    # a rename must follow nothing in EXPRESS (declarations are order-free), but keep select-of-select acyclic: fine as built
+    return s
+
+
+def gen_lattice(rng, idx):
+    """an entity lists a supertype A and, after it, a descendant X of A; the path from X up to A runs through an entity
+    with several supertypes, the one leading to A in first / middle / last position"""
+    s = Schema(f"l{idx}")
+    nm = _names(rng, 24)
+    a, m = nm[0], nm[1]
+    ea = Entity(a, []); ea.attrs = [Attr(nm[2], "e", "STRING")]
+    s.entities.append(ea)
+    cur, k = a, 3
+    for depth in range(rng.randrange(1, 4)):
+        n = nm[k]; k += 1
+        sup = [cur]
+        if depth == 0 and rng.random() < 0.3:
+            pass
+        else:
+            for _ in range(rng.randrange(1, 3)):
+                u = nm[k]; k += 1
+                s.entities.append(Entity(u, []))
+                sup.insert(rng.randrange(len(sup) + 1), u)
+        e = Entity(n, sup)
+        if rng.random() < 0.5:
+            e.attrs = [Attr(nm[k], "e", "REAL")]; k += 1
+        s.entities.append(e)
+        cur = n
+    em = Entity(m, [a, cur] if rng.random() < 0.8 else [cur, a])
+    s.entities.append(em)
     return s
 
 
